@@ -530,6 +530,18 @@ def gen_case(rng, permit, n_steps):
                 rng.shuffle(bs)
                 bases[t] = list(bs)
                 struct = (["setbases", t, bs], t)
+            elif len(leds) > 1 and r < 0.33:
+                # re-initialisation WITH the bases it has (the documented test-cleanup idiom
+                # ``c.__init__(name, bases=c.__bases__)``), on an object nobody uses as a base: the fresh registries
+                # must be connected to the bases' registries although the tuple assigned is the one already there
+                # (round-6 seed C06/a6).  For the model: Reinit (no bases), then SetBases with the same list, which
+                # the implementation executes as a second assignment of the equal tuple.
+                cand = [t_ for t_ in range(1, len(leds)) if bases[t_] and not any(t_ in b for b in bases)]
+                if cand:
+                    t = rng.choice(cand)
+                    leds[t].apply(["reinit", "keep"])
+                    steps.append({"op": ["reinit", "keep"], "on": t, "queries": [], "qon": []})
+                    struct = (["setbases", t, list(bases[t])], t)
             if struct is not None:
                 qon = [rng.randrange(len(leds)) for _ in range(nq)]
                 qs = []
@@ -802,7 +814,7 @@ def _py_op(op):
 
     k = op[0]
     if k == "reinit":
-        return "reg.__init__('c16')"
+        return "reg.__init__('c16', bases=reg.__bases__)" if len(op) > 1 else "reg.__init__('c16')"
     if k == "uboth":
         return "reg.%sregisterUtility(%s, S%d, %s, factory=F%d)   # component and factory together" % (
             "un" if op[1] else "", v(op[2]), op[3], nm(op[4]), op[5])
